@@ -417,8 +417,8 @@ mut('c05-flatten-raw-dims (revert of fix)', ['C05'], 'flatten special-cases -1 a
     [(F, "    start = start_dim + ndim if start_dim < 0 else start_dim\n    end = end_dim + ndim if end_dim < 0 else end_dim\n", "    start = start_dim if start_dim != -1 else len(shape)\n    end = end_dim if end_dim != -1 else len(shape)\n")], rules=['C05.AXIS'])
 mut('c05-squeeze-tuple-subscript (revert of fix)', ['C05'], 'squeeze_forward subscripts the shape with a tuple dim',
     [(K, "    if isinstance(axis, (tuple, list)):\n        axis = tuple(ax for ax in axis if a.shape[ax] == 1)\n    can_apply = len(a.shape) > 0 and (axis is None or isinstance(axis, tuple) or a.shape[axis] == 1)", "    can_apply = len(a.shape) > 0 and (axis is None or a.shape[axis] == 1)")], rules=['C05.AXIS'])
-mut('c01-unfold-dim-wrapper-no-normalise', ['C01', 'C05'], 'unfold_dim wrapper no longer normalises a negative dimension (kernel builds [slice]*(dimension+1))',
-    [(F, "    if dimension < 0:\n        dimension += x.ndim\n", "")], rules=['C01.AXIS', 'C05.AXIS'])
+mut('c01-unfold-dim-wrapper-no-normalise', ['C01'], 'unfold_dim wrapper no longer normalises a negative dimension (kernel builds [slice]*(dimension+1))',
+    [(F, "    if dimension < 0:\n        dimension += x.ndim\n", "")], rules=['C01.AXIS'])
 mut('c01-twin-axis-modulo', ['C01'], 'unbind_backward normalises with %', [(K, "    if axis < 0: axis = len(a_shape) + axis\n", "    axis = axis % len(a_shape)\n")], expect='silent')
 
 # ------------------------------------------------------------------------------------------------ C09
@@ -434,3 +434,20 @@ mut('c09-selu-forward-unclamped', ['C09'], 'selu_forward without the minimum cla
 mut('c09-tanh-via-exp', ['C09'], 'tanh computed from exp(2a)', [(K, "return np.tanh(a)", "return (np.exp(2*a) - 1) / (np.exp(2*a) + 1)")], rules=['C09.HAZARD'])
 mut('c09-twin-softmax-temp', ['C09'], 'softmax shift through a temporary', [(K, "    shiftx = a - a.max(axis=axis, keepdims=True) \n", "    m = a.max(axis=axis, keepdims=True)\n    shiftx = a - m\n")], expect='silent')
 mut('c09-twin-bce-logits-maximum', ['C09'], 'BCE-with-logits shift written with np.maximum', [(K, "    tn = relu_forward(-y_pred)\n    loss = ", "    tn = np.maximum(-y_pred, 0)\n    loss = ")], expect='silent')
+
+# ------------------------------------------------------------------------------------------------ C05
+mut('c05-iter-returns-self (revert of fix)', ['C05'], 'Tensor.__iter__ returns self with a cursor on the instance', [(T, "    def __iter__(self):\n        for idx in range(len(self)):\n            yield self[idx]\n", "    def __iter__(self):\n        self._current_idx = 0\n        return self\n")], rules=['C05.ITER'])
+mut('c05-rsub-wrong-order', ['C05', 'C14'], '__rsub__ computes self - other', [(T, "        return other + (-self)", "        return self + (-other)")], rules=['C05.OPERATORS', 'C14'])
+mut('c05-rtruediv-wrong-order', ['C05', 'C14'], '__rtruediv__ computes self / other', [(T, "        return other * self**-1", "        return self * other**-1")], rules=['C05.OPERATORS', 'C14'])
+mut('c05-rmatmul-wrong-order', ['C05'], '__rmatmul__ multiplies in the wrong order', [(T, "        return F.matmul(tensor, self)", "        return F.matmul(self, tensor)")], rules=['C05.OPERATORS'])
+mut('c05-movedim-forward-swapped', ['C05'], 'movedim_forward hands (destination, source) to np.moveaxis', [(K, "def movedim_forward(a:np.ndarray, source:int, destination:int):\n    return np.moveaxis(a, source, destination)", "def movedim_forward(a:np.ndarray, source:int, destination:int):\n    return np.moveaxis(a, destination, source)")], rules=['C05.DELEGATE'])
+mut('c05-tensor-movedim-swapped', ['C05'], 'Tensor.movedim forwards (destination, source)', [(T, "    def movedim(self, source, destination) -> 'Tensor':\n        return F.movedim(self, source, destination)", "    def movedim(self, source, destination) -> 'Tensor':\n        return F.movedim(self, destination, source)")], rules=['C05.DELEGATE'])
+mut('c05-sum-ignores-keepdims', ['C05'], 'sum_forward ignores keepdims', [(K, "    return np.sum(a, axis=axis, keepdims=keepdims)", "    return np.sum(a, axis=axis)")], rules=['C05.DELEGATE'])
+mut('c05-unfold-check-after-call', ['C05'], 'unfold_dim validates size/step after the kernel call', [(F, "    # check that the size and step are positive integers\n    if not isinstance(size, int) or size <= 0:\n        raise ValueError(f\"Invalid size: {size}\")\n    if not isinstance(step, int) or step <= 0:\n        raise ValueError(f\"Invalid step: {step}\")\n    \n    if x.device == Device.CPU:\n        out_data = cpu_ops.unfold_dim_forward(x.data, dimension, size, step)\n    else:\n        raise RuntimeError(f\"{x.device} not supported\")\n",
+      "    if x.device == Device.CPU:\n        out_data = cpu_ops.unfold_dim_forward(x.data, dimension, size, step)\n    else:\n        raise RuntimeError(f\"{x.device} not supported\")\n    # check that the size and step are positive integers\n    if not isinstance(size, int) or size <= 0:\n        raise ValueError(f\"Invalid size: {size}\")\n    if not isinstance(step, int) or step <= 0:\n        raise ValueError(f\"Invalid step: {step}\")\n")], rules=['C05.REJECT'])
+mut('c05-matmul-1d-accepted', ['C05'], 'matmul accepts 1-D operands (guard weakened to `and`)', [(F, "if x1.ndim < 2 or x2.ndim < 2:", "if x1.ndim < 2 and x2.ndim < 2:")], rules=['C05.REJECT'])
+mut('c05-flatten-fallback', ['C05'], 'flatten returns the input for start > end instead of raising', [(F, "    if start > end:\n        raise RuntimeError(\"flatten() has invalid args: start_dim cannot come after end_dim\")", "    if start > end:\n        return x")], rules=['C05.REJECT'])
+mut('c05-zeros-drops-dtype', ['C05'], 'zeros() ignores dtype', [(T, "    return Tensor(np.zeros(shape, dtype=default_type__), dtype=dtype, requires_grad=requires_grad, name=name, device=device)", "    return Tensor(np.zeros(shape, dtype=default_type__), requires_grad=requires_grad, name=name, device=device)")], rules=['C05.CTOR'])
+mut('c05-ones-like-loses-dtype', ['C05', 'C10'], 'ones_like builds its data from the shape only', [(T, "    return Tensor(np.ones_like(tensor.data), dtype=dtype,", "    return Tensor(np.ones(tensor.shape), dtype=dtype,")], rules=['C05.CTOR'])
+mut('c05-twin-neg-via-F', ['C05'], '__neg__ through F.neg', [(T, "        return self * -1.0", "        return F.neg(self)")], expect='silent')
+mut('c05-twin-sub-via-F', ['C05'], '__sub__ through F.add / F.neg', [(T, "        return self + (-other)", "        return F.add(self, -other)")], expect='silent')
